@@ -105,6 +105,11 @@ func (g *dmLimitGauge) MeterMemory(u common.MemoryUsage) error {
 // runScenario executes all steps on a fresh Host with the given engine. It stops at the first
 // internal/crash outcome and returns its index (-1 if none) together with all verdicts so far.
 func dmRunScenario(sc *dmScenario, vm bool) (res []dmStepResult, failing int) {
+	return dmRunScenarioUntil(sc, vm, func(v dmVerdict) bool { return v.Class == "internal" || v.Class == "crash" })
+}
+
+// dmRunScenarioUntil stops at the first step whose verdict satisfies stop.
+func dmRunScenarioUntil(sc *dmScenario, vm bool, stop func(dmVerdict) bool) (res []dmStepResult, failing int) {
 	h := lib.NewHost()
 	failing = -1
 	for i, st := range sc.Steps {
@@ -133,7 +138,7 @@ func dmRunScenario(sc *dmScenario, vm bool) (res []dmStepResult, failing int) {
 			r.Err = "panic: " + dmToStr(o.Panic)
 		}
 		res = append(res, r)
-		if v.Class == "internal" || v.Class == "crash" {
+		if stop(v) {
 			failing = i
 			return
 		}
@@ -162,7 +167,11 @@ func dmEngineName(vm bool) string {
 // ------------------------------------------------------------------ corpus
 
 func dmLoadCorpus() (out []*dmScenario, names []string) {
-	files, _ := filepath.Glob(filepath.Join(dmCorpusDir, "*.json"))
+	dir := dmCorpusDir
+	if d := os.Getenv("C01_CORPUS"); d != "" {
+		dir = d // development aid: replay scenario files of another directory
+	}
+	files, _ := filepath.Glob(filepath.Join(dir, "*.json"))
 	sort.Strings(files)
 	for _, f := range files {
 		b, err := os.ReadFile(f)
@@ -194,7 +203,7 @@ func (s *dmShrinker) holds(c *dmScenario) (bool, int) {
 		return false, -1
 	}
 	s.runs++
-	res, f := dmRunScenario(c, s.vm)
+	res, f := dmRunScenarioUntil(c, s.vm, func(v dmVerdict) bool { return v.Class == s.want.Class })
 	if f < 0 {
 		return false, -1
 	}
